@@ -18,9 +18,9 @@ use zeep_lib::utils::read_input_file_and_xsd_files_at_path;
 const PROPERTY: &str = "C17";
 const ENGINE: &str = "os";
 
-const SPELLINGS: [&str; 8] = ["absolute", "relative-with-dir", "dot-slash", "bare-name", "dotdot-dir", "double-slash", "dir-dot-name", "dir-sub-dotdot-name"];
+const SPELLINGS: [&str; 10] = ["absolute", "relative-with-dir", "dot-slash", "bare-name", "dotdot-dir", "double-slash", "dir-dot-name", "dir-sub-dotdot-name", "symlink-dotdot (other/lnk/../name, lnk -> ../w/sub)", "nonexistent-dotdot (w/nonexistent/../name: not a valid path)"];
 const OUTPUTS: [&str; 4] = ["default", "-o absolute same dir", "-o relative", "-o absolute other dir"];
-const PRE: [&str; 5] = ["absent", "shorter", "longer", "same-length", "longer-by-3"];
+const PRE: [&str; 8] = ["absent", "shorter", "longer", "same-length", "longer-by-3", "expected+newline", "expected+blank-lines", "expected-with-one-byte-changed"];
 const EXTRAS: [&str; 9] = ["none", "valid unrelated .xsd", "malformed .xsd", "non-schema .xsd", "40 unrelated files", "hidden .xsd", "upper-case .XSD", "empty .xsd", "directory named *.xsd"];
 
 /// (symbol, class, max index explored in seeded mode, actions)
@@ -94,9 +94,9 @@ fn styled_start(start: &str, name_style: u64) -> String {
 
 fn decode_case(ch: &mut Chooser, nsets: usize) -> Case {
     let input = ch.choose("input", nsets as u64) as usize;
-    let spelling = ch.choose("spelling", 8);
+    let spelling = ch.choose("spelling", 10);
     let output = ch.choose("output", 4);
-    let pre = ch.choose("preexisting", 5);
+    let pre = ch.choose("preexisting", 8);
     let extra = ch.choose("extra_sibling", 9);
     let longflags = ch.choose("long_flags", 2) == 1;
     let entropy = ch.choose("entropy", u64::MAX);
@@ -104,7 +104,8 @@ fn decode_case(ch: &mut Chooser, nsets: usize) -> Case {
     let fault = if ch.choose("faults", 2) == 1 {
         let t = targets();
         let ti = ch.choose("fault_target", t.len() as u64) as usize;
-        let idx = ch.choose("fault_index", t[ti].2.max(1));
+        // most symbols are called a handful of times: three of four draws stay below 4
+        let idx = if ch.choose("fault_index_small", 4) != 0 { ch.choose("fault_index", t[ti].2.clamp(1, 4)) } else { ch.choose("fault_index", t[ti].2.max(1)) };
         let ai = ch.choose("fault_action", t[ti].3.len() as u64) as usize;
         Some(FaultSpec { sym: t[ti].0, cls: t[ti].1, idx, action: t[ti].3[ai].clone() })
     } else {
@@ -123,7 +124,7 @@ fn encode_case(c: &Case) -> Vec<u64> {
         let ts = targets();
         let ti = ts.iter().position(|x| x.0 == f.sym && x.1 == f.cls).unwrap_or(0);
         let ai = ts[ti].3.iter().position(|a| *a == f.action).unwrap_or(0);
-        t.extend([1, ti as u64, f.idx, ai as u64]);
+        t.extend([1, ti as u64, 0, f.idx, ai as u64]);
     } else {
         t.push(0);
     }
@@ -278,11 +279,22 @@ fn run_once(sets: &[InputSet], c: &Case, spelling: u64, expected: &Expected) -> 
         4 => (w.clone(), format!("../{wname}/{start}")),
         5 => (top.clone(), format!("{wname}//{start}")),
         6 => (top.clone(), format!("{wname}/./{start}")),
-        _ => {
+        7 => {
             let _ = std::fs::create_dir_all(w.join("sub"));
             (top.clone(), format!("{wname}/sub/../{start}"))
         }
+        8 => {
+            // `other/lnk` is a symbolic link to `w/sub`: the operating system resolves `other/lnk/..` to `w`;
+            // folding the path textually would give `other/<name>`, which does not exist
+            let _ = std::fs::create_dir_all(w.join("sub"));
+            let _ = std::fs::create_dir_all(top.join("other"));
+            let _ = std::os::unix::fs::symlink(format!("../{wname}/sub"), top.join("other/lnk"));
+            (top.clone(), format!("other/lnk/../{start}"))
+        }
+        _ => (top.clone(), format!("{wname}/nonexistent/../{start}")),
     };
+    // spelling 9 names no file (the kernel fails on the missing component): the tool must fail like the library does
+    let invalid_spelling = spelling == 9;
     let stem_rs = Path::new(start).with_extension("rs").to_string_lossy().to_string();
     let (out_abs, out_arg): (PathBuf, Option<String>) = match c.output {
         0 => (w.join(&stem_rs), None),
@@ -298,13 +310,26 @@ fn run_once(sets: &[InputSet], c: &Case, spelling: u64, expected: &Expected) -> 
                 Expected::Bytes(b) => b.len(),
                 _ => 200_000,
             };
-            Some(sentinel(match k {
-                2 => base + 4096,
-                3 => base,
-                _ => base + 3,
-            }))
+            let exp = match expected {
+                Expected::Bytes(b) => b.clone(),
+                _ => sentinel(2000),
+            };
+            Some(match k {
+                2 => sentinel(base + 4096),
+                3 => sentinel(base),
+                4 => sentinel(base + 3),
+                5 => [exp.as_slice(), b"\n"].concat(),
+                6 => [exp.as_slice(), b"  \n\t\n\n"].concat(),
+                _ => {
+                    let mut e = exp;
+                    let m = e.len() / 2;
+                    e[m] = if e[m] == b'x' { b'y' } else { b'x' };
+                    e
+                }
+            })
         }
     };
+    let pre_bytes = if invalid_spelling && c.output == 0 { None } else { pre_bytes }; // no file can pre-exist at a path that does not resolve
     if let Some(b) = &pre_bytes {
         let _ = std::fs::write(&out_abs, b);
     }
@@ -399,7 +424,7 @@ fn judge_run(sets: &[InputSet], c: &Case, spelling: u64, r: &RunObs, expected: &
             (Some(_), Expected::Fails(_)) if fired && c.fault.as_ref().is_some_and(|x| x.sym == "stat" && x.cls == "sibling") => {}
             (Some(_), Expected::Fails(t)) => f.push(Finding {
                 class: "false-success".into(),
-                key: format!("false-success:stage={stage}"),
+                key: if spelling == 9 { "false-success:spelling=nonexistent-dotdot".to_string() } else { format!("false-success:stage={stage}") },
                 detail: format!("exit 0 although the library fails on this input with: {t}"),
             }),
             (Some(b), Expected::Bytes(e)) if b != e => {
@@ -463,12 +488,14 @@ fn run_case(sets: &[InputSet], c: &Case) -> CaseResult {
     let mut runs = vec![(0u64, r0)];
     findings.extend(f0.clone());
     if c.spelling != 0 {
-        let r1 = run_once(sets, c, c.spelling, &expected);
-        let f1 = judge_run(sets, c, c.spelling, &r1, &expected);
+        // a spelling that names no file must fail, like the library's own path handling does
+        let exp1 = if c.spelling == 9 { Expected::Fails("the spelled path does not resolve to a file".into()) } else { expected.clone() };
+        let r1 = run_once(sets, c, c.spelling, &exp1);
+        let f1 = judge_run(sets, c, c.spelling, &r1, &exp1);
         // O2: same outcome and bytes for every spelling
         // (under a fault plan the comparison is meaningful only if the fault landed on the same call of the same file:
         // spellings may legitimately shift call indices, e.g. a relative -o file living in the scanned directory)
-        if f0.is_empty() && f1.is_empty() && fired_signature(&runs[0].1) == fired_signature(&r1) {
+        if c.spelling != 9 && f0.is_empty() && f1.is_empty() && fired_signature(&runs[0].1) == fired_signature(&r1) {
             let a = &runs[0].1;
             let same = a.cli.success() == r1.cli.success() && (!a.cli.success() || a.out_after == r1.out_after);
             if !same {
@@ -652,9 +679,9 @@ fn build_tapes(sets: &[InputSet], tier: &str, seed: u64) -> (Vec<Vec<u64>>, Valu
     let extras: Vec<u64> = if thorough { (0..9).collect() } else { vec![0, 2, 4, 8] };
     let mut n_cfg = 0u64;
     for input in 0..sets.len() {
-        for spelling in 1..8u64 {
+        for spelling in 1..10u64 {
             for output in 0..4u64 {
-                for pre in 0..5u64 {
+                for pre in 0..8u64 {
                     for extra in &extras {
                         // quick: thin out by a fixed rule; thorough: everything
                         if !thorough && (input as u64 * 7 + spelling * 5 + output * 3 + pre + *extra) % 7 != 0 {
@@ -676,6 +703,10 @@ fn build_tapes(sets: &[InputSet], tier: &str, seed: u64) -> (Vec<Vec<u64>>, Valu
     }
     if let Some(i) = idx_of("chain") {
         scen.push(Case { input: i, spelling: 1, output: 2, pre: 1, extra: 1, longflags: true, entropy: 0, dirperm: 3, fault: None, name_style: 1, link_style: 1, stderr_full: false, rust_log: 1 });
+    }
+    if let Some(i) = idx_of("big-cwmp") {
+        // an output larger than 64 KiB: a tool that writes in chunks is failed at each of its chunks
+        scen.push(Case { input: i, spelling: 1, output: 1, pre: 2, extra: 0, longflags: false, entropy: 0, dirperm: 0, fault: None, name_style: 0, link_style: 0, stderr_full: false, rust_log: 0 });
     }
     if thorough {
         if let Some(i) = idx_of("hello") {
@@ -720,7 +751,7 @@ fn build_tapes(sets: &[InputSet], tier: &str, seed: u64) -> (Vec<Vec<u64>>, Valu
         if c.fault.is_none() && r % 4 != 0 {
             let t = targets();
             let ti = ch.choose("fault_target", t.len() as u64) as usize;
-            let idx = ch.choose("fault_index", t[ti].2.max(1));
+            let idx = if ch.choose("fault_index_small", 4) != 0 { ch.choose("fault_index", t[ti].2.clamp(1, 4)) } else { ch.choose("fault_index", t[ti].2.max(1)) };
             let ai = ch.choose("fault_action", t[ti].3.len() as u64) as usize;
             c.fault = Some(FaultSpec { sym: t[ti].0, cls: t[ti].1, idx, action: t[ti].3[ai].clone() });
         }
